@@ -6,6 +6,7 @@ Objects are built from a JSON description so that a replay file reproduces them.
           | {"shape": "mapping",  ... same ..., "exposed": {key: value-desc}, "async": bool}
           | {"shape": "sequence", ... same ..., "items": [value-desc]}
           | {"shape": "liquid",   ... same ..., "liquid": scalar, "html": str}
+          | {"shape": "record",   ... same ..., "items": [value-desc, value-desc]}   (a namedtuple instance)
           | {"shape": "list", "items": [value-desc]} | {"shape": "dict", "items": {key: value-desc}}
           | {"shape": "scalar", "value": json scalar}
 
@@ -34,6 +35,7 @@ from __future__ import annotations
 
 from abc import ABCMeta
 from collections import abc
+from collections import namedtuple
 from typing import Any
 
 GLOBAL_SENTINEL = "SENTINEL_0_globals"
@@ -136,6 +138,7 @@ def _seq_getitem(self: Any, key: Any) -> Any:
 
 
 _CLASSES: dict[tuple[Any, ...], type] = {}
+_RECORD_BASE = namedtuple("_RECORD_BASE", ["f0", "f1"])  # noqa: PYI024
 
 
 def _class_for(shape: str, custom: bool, magic: bool, use_async: bool) -> type:
@@ -180,6 +183,11 @@ def _class_for(shape: str, custom: bool, magic: bool, use_async: bool) -> type:
     elif shape == "liquid":
         ns["__liquid__"] = lambda self: _oget(self, "_lv_liquid")
         ns["__html__"] = lambda self: _oget(self, "_lv_html")
+    elif shape == "record":
+        # a named-tuple record (a database row): a real tuple, so items by position are public; its field
+        # names, like every other Python attribute, are not part of the item protocol
+        bases = (_RECORD_BASE,)
+        del ns["__init__"]
     else:
         raise ValueError(shape)
     cls = SpyMeta(ns["__qualname__"], bases, ns)
@@ -203,7 +211,7 @@ def build(desc: Any) -> Any:
 
     oid = desc["id"]
     cls = _class_for(shape, desc.get("str") == "custom", bool(desc.get("magic")), bool(desc.get("async")))
-    obj = cls()
+    obj = cls(*[build(d) for d in desc["items"]]) if shape == "record" else cls()
     _set(obj, "_lv_id", oid)
     _set(obj, "_lv_tag", f"{shape}#{oid}")
     exposed_desc = desc.get("exposed") or {}
